@@ -901,7 +901,11 @@ type Message struct {
 }
 
 func NewMessage() *Message {
-	return &Message{}
+	v := &Message{}
+	// The chunk stream id 0 and 1 are reserved for the 2 and 3 bytes basic header,
+	// so we must use a valid one by default.
+	v.betterCid = chunkIDOverConnection
+	return v
 }
 
 func NewStreamMessage(streamID int) *Message {
